@@ -1283,7 +1283,7 @@ func (env *rEnv) mapHas(mv VMap, key Value) Term {
 		if obj.Fresh {
 			return TFalse
 		}
-		return st.declare(fmt.Sprintf("maphas.%s.%s", sanitize(obj.Name), sanitize(ks)), SBool)
+		return env.e.structHasTerm(st, obj, key)
 	}
 	kt, ok := key.(VSym)
 	if !ok {
